@@ -519,13 +519,139 @@ func vGTRun(x *vexp.X, nchan int, lancero bool, ops []vGTOp, hist []int, cycleEv
 	return m.canon(), vexp.Result{Nontrivial: m.second > 0, Outcome: m.canon()}
 }
 
+// ---- trigger-position family: WHERE in the stream the source's primaries fall.
+// One channel s fires (edge, level, auto or edge+auto trigger; one pulse at a chosen sample of the stream or none), the
+// others carry only ripple and never trigger; every connection set; three data blocks. The primaries of a cycle are the
+// records channel s emits (no other channel has primaries, so s can receive nothing), each checked against the trigger
+// criterion on the ground truth for the edge and level kinds. Every other channel must emit exactly those frames (once
+// each, its own samples) if s is connected to it and nothing otherwise: also for the earliest frame a trigger can have
+// (stream index NPresamples: start of a run, or after the trigger settings were sent again) and for the latest one.
+
+type vGTKind struct {
+	name string
+	ts   func(ch int) TriggerState
+}
+
+func vGTKinds() []vGTKind {
+	return []vGTKind{
+		{"edge", func(int) TriggerState { return TriggerState{EdgeTrigger: true, EdgeRising: true, EdgeLevel: 100} }},
+		{"level", func(ch int) TriggerState {
+			return TriggerState{LevelTrigger: true, LevelRising: true, LevelLevel: RawType(1000 + 40*ch + 100)}
+		}},
+		{"auto", func(int) TriggerState { return TriggerState{AutoTrigger: true} }}, // as fast as allowed: every NSamples
+		{"edge+auto", func(int) TriggerState {
+			return TriggerState{EdgeTrigger: true, EdgeRising: true, EdgeLevel: 100, AutoTrigger: true, AutoDelay: 20 * vPeriod}
+		}},
+	}
+}
+
+const vGTposBlocks = 3
+
+// vGTPositions: connection set `set` (bit k = k-th valid pair in the order of vGTGenerators), channel s fires with
+// trigger kind k and a pulse starting at stream sample pos (pos < 0: no pulse); reconf: the trigger settings of s are sent
+// again before the second block.
+func vGTPositions(x *vexp.X, nchan, set, s int, k vGTKind, pos int, reconf bool) vexp.Result {
+	m := vGTNew(nchan, false)
+	defer m.close()
+	gens := vGTGenerators(nchan)
+	for i, g := range gens[:len(gens)-1] {
+		if set&(1<<uint(i)) != 0 {
+			if v, c := m.apply(x, g); v != "" {
+				return vexp.Result{Violation: v, Class: c}
+			}
+		}
+	}
+	fts := &FullTriggerState{ChannelIndices: []int{s}, TriggerState: k.ts(s)}
+	if err := m.ds.ChangeTriggerState(fts); err != nil {
+		return vexp.Result{Violation: "ChangeTriggerState failed: " + err.Error(), Class: "process-error"}
+	}
+	L := vGTposBlocks * vGTblock
+	for ch := 0; ch < nchan; ch++ {
+		m.truth[ch] = make([]RawType, L)
+		for f := 0; f < L; f++ {
+			v := 1000 + 40*ch + vRipple(f, ch)
+			if ch == s && pos >= 0 && f >= pos {
+				if a := 200 - 50*(f-pos); a > 0 {
+					v += a
+				}
+			}
+			m.truth[ch][f] = RawType(v)
+		}
+	}
+	where := fmt.Sprintf("connections {%s}, channel %d fires (%s trigger, pulse at sample %d, settings re-sent=%v)", m.refString(), s, k.name, pos, reconf)
+	for b := 0; b < vGTposBlocks; b++ {
+		if b == 1 && reconf {
+			if err := m.ds.ChangeTriggerState(fts); err != nil {
+				return vexp.Result{Violation: "ChangeTriggerState failed: " + err.Error(), Class: "process-error"}
+			}
+		}
+		x.Steps++
+		if err := m.ds.ProcessSegments(vBlock(m.truth, b*vGTblock, (b+1)*vGTblock, false)); err != nil {
+			return vexp.Result{Violation: "ProcessSegments failed: " + err.Error(), Class: "process-error"}
+		}
+		frames := make([][]int, nchan)
+		for ch := 0; ch < nchan; ch++ {
+			for _, rec := range m.src.drain(ch) {
+				f := int(rec.trigFrame - vF0)
+				lo := f - vGTnpre
+				if rec.channelIndex != ch || rec.presamples != vGTnpre || len(rec.data) != vGTnsamp || lo < 0 || lo+vGTnsamp > (b+1)*vGTblock {
+					return vexp.Result{Violation: fmt.Sprintf("%s, block %d: channel %d emitted record %s outside its own stream", where, b, ch, vFmtRec(rec)), Class: "secondary-bad-record"}
+				}
+				for j := range rec.data {
+					if rec.data[j] != m.truth[ch][lo+j] {
+						return vexp.Result{Violation: fmt.Sprintf("%s, block %d: channel %d record at frame %d does not carry the channel's own samples", where, b, ch, f), Class: "secondary-wrong-data"}
+					}
+				}
+				frames[ch] = append(frames[ch], f)
+			}
+			sort.Ints(frames[ch])
+		}
+		prim := frames[s]
+		x.Logf("block %d: primaries of channel %d at %v", b, s, prim)
+		for _, f := range prim { // independent criterion scan on the ground truth
+			t := m.truth[s]
+			bad := false
+			switch k.name {
+			case "edge":
+				bad = int(t[f])+int(t[f-1])-int(t[f-2])-int(t[f-3]) < 100
+			case "level":
+				thr := RawType(1000 + 40*s + 100)
+				bad = !(t[f] >= thr && t[f-1] < thr)
+			}
+			if bad {
+				return vexp.Result{Violation: fmt.Sprintf("%s, block %d: channel %d emitted a record at frame %d, where its %s criterion does not hold and no source of it fired", where, b, s, f, k.name), Class: "secondary-unexpected"}
+			}
+		}
+		for r := 0; r < nchan; r++ {
+			if r == s {
+				continue
+			}
+			var want []int
+			if m.ref[vPair{s, r}] {
+				want = prim
+			}
+			if fmt.Sprint(frames[r]) != fmt.Sprint(append([]int{}, want...)) {
+				class := "secondary-missing-or-duplicated"
+				if len(want) == 0 {
+					class = "secondary-unexpected"
+				}
+				return vexp.Result{Violation: fmt.Sprintf("%s, block %d (stream samples %d..%d): channel %d emitted records at frames %v; its connected sources' primaries in this cycle are at %v",
+					where, b, b*vGTblock, (b+1)*vGTblock-1, r, frames[r], append([]int{}, want...)), Class: class}
+			}
+			m.second += len(want)
+		}
+	}
+	return vexp.Result{Nontrivial: m.second > 0, Outcome: m.canon()}
+}
+
 func TestVerifC09(t *testing.T) {
 	r := vexp.NewRunner("C09")
 	defer r.Finish()
 	depth := 3
 	r.SetBound(fmt.Sprintf("BFS to closure over connection sets: generic source with 3 channels (add/delete of every pair over indices -1..3, multi-pair requests, stop, NoCoupling) and Lancero source with 4 channels (err/fb couplings, selected pairs, stop); after every edit 9 data cycles (every subset of channels firing + two sources on one frame); plus un-merged DFS of all edit sequences to depth %d; the same closure and all sequences of depth 2 through the SourceControl RPC methods, where the connection set of the last GROUPTRIGGER message sent to clients must equal the set in use. "+
 		"Receiver-list families, each at source level and through the RPC methods: closure of every (connection set, request) pair for add/delete requests with one source key in -1..3 and EVERY receiver list of length 2 and 3 over -1..3 (valid, self, repeated, negative and >=nchan indices in every order; 1500 requests x 64 sets); Lancero: source 0 with every list of length 2 and 3 over {-1,0,1,2,4}; "+
-		"add/delete requests with two source keys out of -1..3 and every pair of length-2 lists, applied to the empty and to the full connection set; un-merged DFS of all sequences of depth 2 over the single-pair alphabet plus every length-2 list request (305 requests)", depth))
+		"add/delete requests with two source keys out of -1..3 and every pair of length-2 lists, applied to the empty and to the full connection set; un-merged DFS of all sequences of depth 2 over the single-pair alphabet plus every length-2 list request (305 requests). "+
+		"Trigger-position family: every connection set (64) x firing channel (3) x trigger kind of that channel (edge, level, auto every NSamples, edge+auto) x pulse starting at every sample 0..60 of the stream or no pulse x trigger settings re-sent before the second block or not; 3 blocks of 30 samples (npre 3, nsamp 6): every other channel emits exactly the firing channel's primaries of the cycle (frames, once each, own samples) iff connected to it, including primaries at the earliest (stream index NPresamples) and latest triggerable sample", depth))
 	for _, cfg := range []struct {
 		nchan   int
 		lancero bool
@@ -632,6 +758,20 @@ func TestVerifC09(t *testing.T) {
 				hist := []int{first, x.Choose(len(dops))}
 				_, res := vGTRun(x, nch, false, dops, hist, !rpc, rpc) // data cycles after every edit (source level) / after the last (RPC level)
 				return res
+			})
+		}
+	}
+
+	// ---- trigger-position family (see vGTPositions): every connection set x firing channel x trigger kind x every
+	// sample of the first two blocks as the pulse start (or no pulse) x settings re-sent before the second block or not
+	for s := 0; s < nch; s++ {
+		for _, k := range vGTKinds() {
+			s, k := s, k
+			r.DFS(fmt.Sprintf("positions/source=%d/%s", s, k.name), -1, func(x *vexp.X) vexp.Result {
+				set := x.Choose(1 << uint(nch*(nch-1)))
+				pos := x.Choose(2*vGTblock+2) - 1
+				reconf := x.Choose(2) == 1
+				return vGTPositions(x, nch, set, s, k, pos, reconf)
 			})
 		}
 	}
